@@ -2,7 +2,7 @@
 import calendar_oracle as cal
 from core import Prog, AnchorLost
 from sym import Sym, pp, walk_terms, const_of
-from rules import is_call, find_calls, arg_field, result_variant, unref
+from rules import is_call, find_calls, arg_field, result_variant, unref, callees
 import e1
 from props import c07
 
@@ -122,7 +122,7 @@ def r_wrappers(chk, P, tier):
         calls = {c[1] for t in r for c in find_calls(t)}
         others = {c for c in calls if c.startswith(U + "from_timestamp") and c != U + target}
         chk.expect(U + target in calls and not others, w, "%s does not delegate to %s only: %s" % (w, target, sorted(c.split("::")[-1] for c in calls)), loc=P.loc(fn))
-    chk.rule("DOM.wrappers", "no wrapper decides on its own: every return of TimeZone::timestamp_* lies behind the call of the DateTime::<Utc>::from_timestamp* it wraps", floor=4)
+    chk.rule("DOM.wrappers", "no wrapper decides on its own: every return of TimeZone::timestamp_* lies behind the call of the DateTime::<Utc>::from_timestamp* it wraps, and the instant reaches the zone through from_utc_datetime", floor=8)
     for w, target in (("timestamp_opt", "from_timestamp"), ("timestamp_millis_opt", "from_timestamp_millis"), ("timestamp_micros", "from_timestamp_micros"), ("timestamp_nanos", "from_timestamp_nanos")):
         fn = "offset::TimeZone::" + w
         paths = [p_ for p_ in Sym(P, fn).paths() if p_.end[0] == "return"]
@@ -130,6 +130,9 @@ def r_wrappers(chk, P, tier):
             raise AnchorLost(fn + " has no return path")
         bad = [p_ for p_ in paths if not any(c[1] == U + target for c in p_.calls)]
         chk.expect(not bad, w, "%s returns on %d of %d paths without having called %s (a rejection or result of its own)" % (w, len(bad), len(paths), target), loc=P.loc(fn))
+        # the instant is UTC: it is handed to the zone as a UTC value (from_utc_datetime), never re-read as a wall-clock value
+        cs = {c.split("::")[-1] for c in callees(P, fn) if c.startswith("offset::TimeZone::from_")}
+        chk.expect(cs == {"from_utc_datetime"}, w + " utc", "%s converts the UTC instant through %s (expected from_utc_datetime only)" % (w, sorted(cs)), loc=P.loc(fn))
 
 
 def r_absint(chk, P, tier):
